@@ -627,7 +627,8 @@ const KITTY_MAX_DIM: u64 = 65536;
 
 /// Identification for image data
 fn kitty_image_id(img: &Image) -> u64 {
-    img.hash() % KITTY_MAX_ID
+    // valid ids are in the range 1..=KITTY_MAX_ID, zero means "not specified"
+    img.hash() % KITTY_MAX_ID + 1
 }
 
 /// Identification of particular placement of the image
